@@ -18,6 +18,12 @@ BR = mac(0x02DD000000D4)   # a bridge / access point in front of a mapper
 STATIONS = [M1, M2, X, PEER]
 
 MTUS = [576, 1500, 9216]
+# every residue of the MTU modulo the descriptor sizes (20: QueryResp, 14: Emit) occurs
+MTUS_RESIDUES = list(range(576, 596)) + [1280, 1472, 1473, 1492, 1499, 1500, 1501, 9000, 9215, 9216]
+
+
+def any_mtu(rng):
+    return rng.choice(MTUS_RESIDUES) if rng.random() < 0.7 else rng.randrange(576, 9217)
 
 
 def rnd_mac(rng):
@@ -199,7 +205,7 @@ def campaign_c03(seed, tier):
     scs = [sc_generation_regression()]
     nh = 24 if tier == "quick" else 400
     for i in range(nh):
-        scs.append(sc_history("c03-hist-%d" % i, rng.randrange(1 << 30), mtu=rng.choice(MTUS), wifi=i % 2, n=40, wild=0.1))
+        scs.append(sc_history("c03-hist-%d" % i, rng.randrange(1 << 30), mtu=any_mtu(rng), wifi=i % 2, n=40, wild=0.1))
     # H: random (generation, xid, ToS, src, eth src) tuples, each on a released mapper
     for i in range(8 if tier == "quick" else 100):
         s = new_script(mtu=rng.choice(MTUS), wifi=rng.choice([0, 1]))
@@ -221,7 +227,7 @@ def campaign_c02(seed, tier):
     scs = []
     n = 18 if tier == "quick" else 300
     for i in range(n):
-        mtu = MTUS[i % 3]
+        mtu = MTUS[i % 3] if i < 9 else any_mtu(rng)
         kind = i % 3
         scs.append(sc_history("c02-%s-%d" % (["valid", "mutated", "noise"][kind], i), rng.randrange(1 << 30), mtu=mtu,
                               wifi=(i // 3) % 2, n=36, wild=0.2, twins=True,
@@ -371,6 +377,8 @@ def campaign_c06(seed, tier):
         for mtu in MTUS:
             for bridged in (0, 1):
                 scs.append(sc_c06("c06-%d-%d-%d" % (mtu, bridged, r), rng.randrange(1 << 30), mtu, bridged))
+    for mtu in list(range(577, 591)) + [1492, 1499, 1501, 9000] + [rng.randrange(576, 9217) for _ in range(2 if tier == "quick" else 40)]:
+        scs.append(sc_c06("c06-%d-r" % mtu, rng.randrange(1 << 30), mtu, mtu % 2))
     for i in range(8 if tier == "quick" else 200):
         scs.append(sc_history("c06-hist-%d" % i, rng.randrange(1 << 30), n=50, wild=0.1, mtu=rng.choice(MTUS)))
     return scs
@@ -432,20 +440,25 @@ def sc_c07_misc(name, seed, mtu):
 def campaign_c07(seed, tier):
     rng = random.Random(seed)
     scs = []
-    for mtu in MTUS:
+    for mtu in MTUS_RESIDUES + [rng.randrange(576, 9217) for _ in range(3)]:
         cap = (mtu - 34) // 20
         if tier == "quick":
-            ks = sorted(set([0, 1, 2, cap - 1, cap, cap + 1, 2 * cap, 2 * cap + 1, 100, 300] + [rng.randrange(0, 301) for _ in range(2)]))
+            if mtu in MTUS:
+                ks = sorted(set([0, 1, 2, cap - 1, cap, cap + 1, 2 * cap, 2 * cap + 1, 100, 300] + [rng.randrange(0, 301) for _ in range(2)]))
+            else:
+                ks = sorted(set([cap, cap + 1, 2 * cap + 1, min(300, 3 * cap + 2), rng.randrange(0, 301)]))
         else:
-            ks = list(range(0, 301))
+            ks = list(range(0, 301)) if mtu in MTUS else sorted(set([0, 1, cap - 1, cap, cap + 1, 2 * cap, 2 * cap + 1, 3 * cap + 1, 4 * cap + 3, 300]
+                                                                      + [rng.randrange(0, 301) for _ in range(10)]))
         for k in ks:
             if k > 300:
                 continue
             scs.append(sc_c07_drain("c07-drain-%d-%d" % (mtu, k), rng.randrange(1 << 16), mtu, k, dups=True, foreign=True,
                                     bridged=(k % 3 == 1)))
-        scs.append(sc_c07_misc("c07-misc-%d" % mtu, rng.randrange(1 << 16), mtu))
+        if mtu in MTUS:
+            scs.append(sc_c07_misc("c07-misc-%d" % mtu, rng.randrange(1 << 16), mtu))
     for i in range(8 if tier == "quick" else 200):
-        scs.append(sc_history("c07-hist-%d" % i, rng.randrange(1 << 30), n=60, wild=0.05, mtu=rng.choice(MTUS)))
+        scs.append(sc_history("c07-hist-%d" % i, rng.randrange(1 << 30), n=60, wild=0.05, mtu=any_mtu(rng)))
     return scs
 
 
@@ -484,6 +497,10 @@ def campaign_c08(seed, tier):
     rng = random.Random(seed)
     scs = []
     hw = "{6B29FC40-CA47-1067-B31D-00DD010662DA}".encode("utf-16le")[:64]
+    for mtu in [577, 1492, 9000, rng.randrange(576, 9217)] + ([rng.randrange(576, 9217) for _ in range(30)] if tier == "thorough" else []):
+        cap = mtu - 34
+        for i, sz in enumerate([cap, cap + 1, 2 * cap + 1, rng.randrange(0, 32769)]):
+            scs.append(sc_c08("c08-%d-x%d" % (mtu, i), rng.randrange(1 << 30), mtu, sz, rng.choice([0, 20, cap + 1]), hw, tier))
     for mtu in MTUS:
         cap = mtu - 34
         sizes = [0, 1, cap - 1, cap, cap + 1, 2 * cap - 1, 2 * cap, 2 * cap + 1, 16383, 16384, 32768]
@@ -525,10 +542,27 @@ def sc_c09(name, seed, mtu, wild, nh, wifi=0):
     rng = random.Random(seed)
     s = new_script(mtu=mtu, wifi=wifi, twins=True)
     h = Hist(rng, mtu=mtu, wild=wild)
+    faulty = False
     for f in h.frames(nh):
         if rng.random() < 0.1:
             f = mutate(rng, f, mtu)
+        # platform faults are part of the past too (icon / name / hardware id unavailable for a while,
+        # allocations or transmits refused): they must not influence anything after the Reset
+        if not faulty and rng.random() < 0.08:
+            s.fault(get=rng.choice([1 << 2, 1 << 3, 1 << 5, (1 << 2) | (1 << 3) | (1 << 5), 1 << 4]),
+                    alloc=rng.choice([0, 0, 1, 2, 3]), send=rng.choice([0, 0, 1, "all"]))
+            faulty = True
+        elif faulty and rng.random() < 0.3:
+            s.clear()
+            faulty = False
         s.rx(1, f)
+    if rng.random() < 0.5:
+        s.fault(get=(1 << 2) | (1 << 3) | (1 << 5))
+        for typ in (0x0E, 0x11, 0x13):
+            s.rx(1, query_large(rng.choice(STATIONS), OWN, typ, 0, seq=rng.randrange(1, 65536)))
+        faulty = True
+    if faulty:
+        s.clear()
     s.rx(1, reset(rng.choice(STATIONS)))
     cont = characterisation(rng)
     h2 = Hist(random.Random(seed + 1), mtu=mtu, wild=0.2)
